@@ -1,6 +1,8 @@
 import HawkModel.RexLemmas
 import HawkModel.RexParseLemmas
 import HawkModel.RexBracketLemmas
+import HawkModel.RexIcaseLemmas
+import HawkModel.RexTotalLemmas
 /-!
 # C06 — regular expressions match leftmost-longest
 
@@ -323,11 +325,37 @@ open Tre in
 specification (literal leaf → bracket expression over its code range / class, iteration → interval, union → `|`),
 and the tree's own meaning `AMatches` (code ranges, classes, assertion bits, `min..max` copies) is the POSIX
 denotation `Matches` of that ERE, matched case-sensitively (REG_ICASE is compiled into the tree).
-PARTIAL: trees inside `Ast.plain` — no back reference (not regular), no negated-class list (`[^[:alpha:]]`), no
-class leaf under REG_ICASE; for those `toRe` is tied by the correspondence run only. -/
+PARTIAL: trees inside `Ast.plain` — no back reference (not regular); a leaf with a negated-class list
+(`[^[:alpha:]x]`) must have its code range below the surrogate gap U+D800 (every ASCII/BMP-low pattern); class leaves
+cover the full code range (as `tre_parse_bracket_items` makes them).  Round 5b lifted the two former exclusions:
+negated-class lists and class leaves under REG_ICASE are now inside (`class_under_icase`, `complRanges_has`). -/
 theorem ast_denotation_partial (ic nb ne : Bool) (s : List Char) (a : Ast) (h : a.plain ic = true) :
     ∃ r, toRe ic a = some r ∧ ∀ i j, AMatches ic nb ne s a i j ↔ Matches ⟨false, nb, ne⟩ s r i j :=
   toRe_denotation a h
+
+open Tre in
+/-- **REG_ICASE is compiled into the tree as case folding**: for every ASCII pattern character `c` the node `tre_parse`
+makes for it (`upper | lower` with one position under REG_ICASE, the plain literal otherwise) matches in any subject
+exactly where the specification's literal `c` matches under the same IGNORECASE flag (`fold c == fold d`) — so
+"case-insensitive matching differs only by case folding" holds at the leaves of the real parser's trees -/
+theorem icase_literal_is_case_folding (icf nb ne : Bool) (s : List Char) (c : Char) (hc : c.toNat < 128) (pos i j : Nat) :
+    AMatches icf nb ne s (literalNode ⟨icf, false, false⟩ c.toNat pos) i j ↔ Matches ⟨icf, nb, ne⟩ s (.chr c) i j :=
+  literalNode_matches icf nb ne s c hc pos i j
+
+open Tre in
+/-- **a named class under REG_ICASE** — TRE tests `c`, `tolower c` and `toupper c` (`tre-match-utils.h`) — is, for every
+class and every character, the class `icClose k` tested case-sensitively (`upper`/`lower` become `alpha`, the other
+ten classes are closed under case): IGNORECASE on classes "differs only by case folding" -/
+theorem class_under_icase (k : CClass) (d : Char) : classHas true k d = (icClose k).has d :=
+  classHas_icClose k d
+
+open Tre in
+/-- a leaf of a negated bracket with a negated-class list (`[^[:alpha:]x]`): its bracket expression in the
+specification accepts exactly the characters in the leaf's code range that are in none of the listed classes -/
+theorem negated_class_leaf (ic : Bool) (l : Lit) (hn : l.neg.isEmpty = false) (hc : l.cls = none) (hl : l.lowCodes = true) (d : Char) :
+    ∃ ng items, litRe ic l = .cls ng items ∧ clsHas false ng items d = l.has ic d := by
+  obtain ⟨ng, items, h1, h2⟩ := litRe_cls (ic := ic) (l := l) (by simp [hn, hc, hl])
+  exact ⟨ng, items, h1, h2 d⟩
 
 open Tre in
 /-- **the verified matcher on the parsed tree returns the leftmost-longest match** of the tree's language
@@ -429,6 +457,33 @@ theorem bracket_items_sorted (l : List Item) :
     (sortItems l).Pairwise (fun a b => a.lo ≤ b.lo) ∧ ∀ y, y ∈ sortItems l ↔ y ∈ l :=
   sortItems_spec l
 
+open Tre in
+/-- **the postfix loop never answers STUCK** (first part of "the recursion budget of `Tre.parse` always suffices"):
+`PARSE_POSTFIX` run with the budget `parsePiece` gives it (`re.length + 1`) never exhausts it, for every tree and every
+text, and what it leaves is never longer than what it got; `tre_parse_bound` (no budget) never answers STUCK either.
+Still open: the mutual recursion of `parseRE … parseLiteral` (needs, besides these, that every piece consumes input). -/
+theorem postfix_loop_never_stuck (cf : CF) (res : Ast) (re : List Char) :
+    postfixOps cf (re.length + 1) res re ≠ .error .stuck ∧
+    (∀ a t, postfixOps cf (re.length + 1) res re = .ok (a, t) → t.length ≤ re.length) ∧
+    (∀ r, parseBound res r ≠ .error .stuck) :=
+  ⟨(postfixOps_spec cf _ res re (Nat.lt_succ_self _)).1, (postfixOps_spec cf _ res re (Nat.lt_succ_self _)).2,
+   fun r => (parseBound_spec res r).1⟩
+
+open Tre in
+/-- **the bracket loop never answers STUCK**: `tre_parse_bracket` (budget: the text length + 1) never exhausts its
+budget, for every text, and what it leaves is never longer than what it got -/
+theorem bracket_loop_never_stuck (icase : Bool) (pos : Nat) (re : List Char) :
+    parseBracket icase pos re ≠ .error .stuck ∧
+    ∀ a rest, parseBracket icase pos re = .ok (a, rest) → rest.length ≤ re.length :=
+  parseBracket_spec icase pos re
+
+open Tre in
+/-- the backslash atoms (`\\t … \\w … \\b \\< \\x41 \\x{41} \\1`, escaped characters) never answer STUCK and only consume input -/
+theorem escape_atoms_never_stuck (cf : CF) (st : St) (e : Char) (t : List Char) :
+    escapeAtom cf st e t ≠ .error .stuck ∧
+    ∀ a st' rest, escapeAtom cf st e t = .ok (a, st', rest) → rest.length ≤ t.length :=
+  escapeAtom_spec cf st e t
+
 /-! ### non-vacuity: concrete trees, error classes, and the pipeline -/
 section
 open Tre
@@ -460,6 +515,10 @@ example : parseOk {} "((a))".toList =
 example : parseOk {} "[^a-cb-e]".toList =
     some ⟨.union (.leaf (.lit ⟨0, some 96, 0, none, []⟩) none 0) (.leaf (.lit ⟨102, none, 0, none, []⟩) none 0) (some 0) 1, 1, 1⟩ := by decide +kernel
 example : ∀ it ∈ [(⟨97, some 99, none⟩ : Item), ⟨98, some 101, none⟩], ∃ h, it.hi = some h ∧ it.lo ≤ h := by decide
+
+/-- the formerly excluded trees are inside `Ast.plain` now: a negated class list and a class leaf, under REG_ICASE -/
+example : ((parseOk { icase := true } "[^[:upper:]x]+[[:lower:]]".toList).map fun p => p.ast.plain true) = some true := by decide +kernel
+example : (matchText { icase := true } false false "[^[:digit:]x]+[[:lower:]]".toList "1XaB2".toList).toOption = some (some (2, 2)) := by decide +kernel
 
 /-- the pipeline on a parsed tree inside `Ast.plain` (hypotheses of the `_partial` theorems are satisfiable) -/
 example : ((parseOk {} "a(b|c)*d".toList).map fun p => p.ast.plain false) = some true := by decide +kernel
